@@ -32,7 +32,7 @@ _line = st.one_of(
 )
 _text = st.lists(_line, min_size=1, max_size=5).map("\n".join)
 
-_tgt = st.one_of(st.just(0), st.just(0), st.integers(0, 2), st.integers(0, 50))
+_tgt = st.sampled_from([0, 0, 0, 0, 1, 1, 2, 3, 5, 8, 13, 21, 34, 50])
 
 _op = st.one_of(
     st.tuples(st.just("text"), _tgt, _text),
